@@ -67,3 +67,15 @@ VM_INIT = {"main": "src/virtual_machine.cpp", "keep": ["randomx_vm::initialize",
 STR_NE = [{"name": "std::string != -> abstract identity comparison", "pattern": r"machine->cacheKey != cache->cacheKey", "repl": "!rxv_string_eq(&machine->cacheKey, &cache->cacheKey)"}]
 RX_SET_CACHE = {"main": "src/randomx.cpp", "keep": ["randomx_vm_set_cache", "randomx_vm::getMemory", "randomx_vm::usesCache"], "pre_rewrites": STR_NE,
                 "must_fire": {"recipe rewrite: std::string != -> abstract identity comparison": 1}}
+
+VM_INTERP_LIGHT = {"main": "src/vm_interpreted_light.cpp", "keep": ["InterpretedLightVm::datasetRead", "InterpretedLightVm::setCache"],
+                   "flatten": {"root": "randomx_vm", "concrete": "InterpretedLightVm",
+                               "chain": ["randomx_vm", "VmBase", "BytecodeMachine", "InterpretedVm", "InterpretedLightVm"]}}
+VM_INTERP = {"main": "src/vm_interpreted.cpp", "keep": ["InterpretedVm::datasetRead", "InterpretedVm::setDataset"],
+             "flatten": {"root": "randomx_vm", "concrete": "InterpretedVm", "chain": ["randomx_vm", "VmBase", "BytecodeMachine", "InterpretedVm"]},
+             "pre_rewrites": [{"name": "dataset word read -> abstract dataset content", "function": "InterpretedVm_datasetRead",
+                               "pattern": r"datasetLine\[i\]", "repl": "rxv_dataset_word(datasetLine + i)"}],
+             "must_fire": {"recipe rewrite: dataset word read -> abstract dataset content": 1}}
+AES_DISPATCH = {"main": "src/aes_hash.cpp", "keep": ["aesenc", "aesdec", "rx_*"],
+                "pre_rewrites": [{"name": "hardware AES arm -> contract stand-in", "pattern": r"rx_aes(enc|dec)_vec_i128\(", "repl": r"rxv_hard_aes\1("}],
+                "must_fire": {"recipe rewrite: hardware AES arm -> contract stand-in": 2}}
